@@ -21,6 +21,7 @@ RULE = ("Hypothesis: histories = op lists (1-30 steps) over the full public alph
 RULE = RULE + " Rounds e-g: note-offs with release velocities, INTERNAL marker messages through add_absolute_message / overwrite_absolute_messages, rests written as two WAITs."
 RULE = RULE + " Round h: zero-tick waits."
 RULE = RULE + " Round i: split followed by in-place edits of every piece."
+RULE = RULE + " Round j: silent notes."
 ASSUMPTIONS = ["mutators are never interleaved with an open messages_*() generator (documented as illegal)",
                "edits through messages_abs() never change `time`; invalidate_* is only called when the other view is fresh",
                "an operation that raises identically on the object and on its clean replica ends the history as inconclusive"]
